@@ -249,7 +249,7 @@ theorem rowKind_plain (c : Cell) (rest : Row) (h : plainFirst c = true) : rowKin
   | _ => rfl
 
 theorem readCell_plainFirst (naRep : Str) (hna : naRepOK naRep = true) (u : Str) (v : Val)
-    (h : valOK u v = true) (hm : match v with | .text s => notMarker s = true | _ => True) :
+    (h : valOK u v = true) (hm : ∀ s, v = .text s → notMarker s = true) :
     plainFirst (readCell naRep v) = true := by
   have hb := readCell_not_blank naRep hna u v h
   obtain ⟨n1, _, _, _, n5⟩ := naRep_facts naRep hna
@@ -258,7 +258,7 @@ theorem readCell_plainFirst (naRep : Str) (hna : naRepOK naRep = true) (u : Str)
   | text s =>
     simp only [valOK, Bool.and_eq_true] at h
     simp only [readCell, writtenCell, storeCell_textOK s h.2]
-    exact hm
+    exact hm s rfl
   | bool b => cases b <;> simp [readCell, writtenCell, storeCell]
   | dt t =>
     by_cases ht : t = NaT
@@ -1235,5 +1235,616 @@ theorem makeTable_block (ext : Ext) (naRep : Str) (hna : naRepOK naRep = true) (
     · rw [layout_block_transposed naRep t h hna W hc ht]
       rw [ht] at hfin
       simpa [bind, Except.bind, namesOf, unitsOf, colsOf] using hfin
+
+/-! ## H. row kinds of a stored block -/
+
+theorem header_kind (t : TableVal) (h : excelWF t = true) (rest : Row) :
+    rowKind (.str (header t) :: rest) = .tbl := by
+  obtain ⟨w1, _, w3, _⟩ := excelWF_facts t h
+  have hlead : leading '*' (header t) = 2 := by
+    unfold header
+    simp only [leading, if_true]
+    have : leading '*' (t.name ++ if t.transposed = true then ['*'] else []) = 0 := by
+      cases hn : t.name with
+      | nil =>
+        cases ht : t.transposed
+        · simp [leading]
+        · exact absurd hn (w3 ht)
+      | cons a as =>
+        have : a ≠ '*' := by rw [hn] at w1; simpa using w1
+        simp [leading, this]
+    rw [this]
+  have hnb : (Cell.str (header t)).isBlank = false := by
+    simp [Cell.isBlank, header, allSpace, isSpace]
+  unfold rowKind
+  simp only [hnb, Bool.false_eq_true, if_false, classify, hlead, if_true]
+
+theorem plain_of_append (c : Cell) (xs pad : Row) (h : plainFirst c = true) :
+    rowKind ((c :: xs) ++ pad) = .plain := rowKind_plain c _ h
+
+/-- every row of a stored block after the header row continues the block -/
+theorem block_kinds (naRep : Str) (hna : naRepOK naRep = true) (t : TableVal) (h : excelWF t = true) (W : Nat) :
+    ∃ hd plains, (tableBlock naRep t).map (storeRow W) = hd :: plains ∧ rowKind hd = .tbl ∧
+      ∀ r ∈ plains, rowKind r = .plain := by
+  obtain ⟨_, _, _, w4, w5, _, _, w8, w9, w10⟩ := excelWF_facts t h
+  obtain ⟨hh1, _⟩ := header_facts t
+  obtain ⟨hd1, hd2⟩ := destCell_facts t w4 w5
+  have hcf := fun c hc => columnOK_facts t.nRows c (w8 c hc)
+  have hdest : rowKind (Cell.str (destCell t) :: List.replicate (W - 1) Cell.none) = .plain := rowKind_plain _ _ hd2
+  cases hc : t.columns with
+  | nil =>
+    refine ⟨Cell.str (header t) :: List.replicate (W - 1) Cell.none,
+      [Cell.str (destCell t) :: List.replicate (W - 1) Cell.none], ?_, header_kind t h _, ?_⟩
+    · simp only [tableBlock, hc, List.isEmpty_nil, if_true, List.map_cons, List.map_nil,
+        storeRow_single W _ hh1, storeRow_single W _ hd1]
+    · intro r hr
+      simp only [List.mem_singleton] at hr
+      rw [hr]; exact hdest
+  | cons c0 cs =>
+    have hne : t.columns ≠ [] := by rw [hc]; simp
+    have hc0 : c0 ∈ t.columns := by rw [hc]; simp
+    obtain ⟨c1, _, c3, _, c5, c6⟩ := hcf c0 hc0
+    cases ht : t.transposed
+    · -- row-wise
+      have hfirst := w10 ht c0 cs hc
+      simp only [firstColumnOK, Bool.and_eq_true, List.all_eq_true] at hfirst
+      obtain ⟨⟨f1, f2⟩, f3⟩ := hfirst
+      refine ⟨_, _, storedBlock_rowwise naRep t h W hne ht, header_kind t h _, ?_⟩
+      intro r hr
+      simp only [List.mem_cons, List.mem_map] at hr
+      rcases hr with rfl | rfl | rfl | hr
+      · exact hdest
+      · simp only [namesOf, hc, List.map_cons, List.cons_append]
+        apply rowKind_plain
+        simp only [plainFirst, textOK_not_blank _ c1, Bool.not_false, Bool.true_and]
+        exact f1
+      · simp only [unitsOf, hc, List.map_cons, List.cons_append]
+        apply rowKind_plain
+        simp only [plainFirst, textOK_not_blank _ c3, Bool.not_false, Bool.true_and]
+        exact f2
+      · obtain ⟨row, hrow, rfl⟩ := hr
+        simp only [transposeN, List.mem_map, List.mem_range] at hrow
+        obtain ⟨i, hi, rfl⟩ := hrow
+        simp only [colsOf, hc, List.map_cons, List.cons_append]
+        apply rowKind_plain
+        have hl : i < c0.values.length := by omega
+        simp only [cellsOf]
+        rw [getD0_map _ _ _ hl]
+        apply readCell_plainFirst naRep hna c0.unit _ (c6 _ (List.getElem_mem _))
+        intro s hs
+        have := f3 _ (List.getElem_mem hl)
+        rw [hs] at this
+        exact this
+    · -- transposed
+      refine ⟨_, _, storedBlock_transposed naRep t h W hne ht, header_kind t h _, ?_⟩
+      intro r hr
+      simp only [List.mem_cons, List.mem_map] at hr
+      rcases hr with rfl | ⟨x, hx, rfl⟩
+      · exact hdest
+      · simp only [tripOf, List.mem_map] at hx
+        obtain ⟨c, hc', rfl⟩ := hx
+        apply rowKind_plain
+        simp only [plainFirst, textOK_not_blank _ (hcf c hc').1, Bool.not_false, Bool.true_and]
+        exact w9 ht c hc'
+
+
+/-! ## I. the splitter on a stored sheet -/
+
+def blankW (W : Nat) : Row := List.replicate W Cell.none
+
+/-- what the BLANK state keeps of the first separator row (`len(row) > 1`) -/
+def keepGrid (W : Nat) : List Row := if 2 ≤ W then [blankW W] else []
+
+theorem blankW_kind (W : Nat) (hW : 1 ≤ W) : rowKind (blankW W) = .blankRow (decide (2 ≤ W)) := by
+  obtain ⟨n, rfl⟩ : ∃ n, W = n + 1 := ⟨W - 1, by omega⟩
+  simp only [blankW, List.replicate_succ, rowKind, Cell.isBlank, if_true]
+  cases n with
+  | zero => simp
+  | succ k => simp [List.replicate_succ]
+
+theorem go_plains (plains rest : List Row) (hp : ∀ r ∈ plains, rowKind r = .plain) (j : Nat) (g : List Row)
+    (st : BT) (i0 : Nat) :
+    go rowKind j ⟨g, st, i0⟩ (plains ++ rest) = go rowKind (j + plains.length) ⟨g ++ plains, st, i0⟩ rest := by
+  induction plains generalizing j g with
+  | nil => simp
+  | cons r rs ih =>
+    have hr := hp r (by simp)
+    simp only [List.cons_append, go, C03.plain_continues rowKind _ j r hr, List.nil_append]
+    rw [ih (fun x hx => hp x (List.mem_cons_of_mem _ hx))]
+    simp [Nat.add_assoc, Nat.add_comm 1]
+
+theorem go_table (hd : Row) (plains rest : List Row) (hk : rowKind hd = .tbl)
+    (hp : ∀ r ∈ plains, rowKind r = .plain) (i : Nat) (s : St Row) :
+    go rowKind i s (hd :: plains ++ rest) =
+      emit s ++ go rowKind (i + 1 + plains.length) ⟨hd :: plains, .table, i⟩ rest := by
+  have h1 : step rowKind s i hd = (⟨[hd], .table, i⟩, emit s) := by simp [step, switch, hk]
+  simp only [List.cons_append, go, h1]
+  rw [go_plains plains rest hp]
+  rfl
+
+theorem go_first_blank (W : Nat) (hW : 1 ≤ W) (rest : List Row) (j : Nat) (g : List Row) (i0 : Nat) :
+    go rowKind j ⟨g, .table, i0⟩ (blankW W :: rest) =
+      emit ⟨g, .table, i0⟩ ++ go rowKind (j + 1) ⟨keepGrid W, .blank, j⟩ rest := by
+  have hk := blankW_kind W hW
+  have h1 := (C03.blank_ends_block rowKind ⟨g, .table, i0⟩ j (blankW W) _ hk).1 (by simp)
+  simp only [go, h1, keepGrid]
+  by_cases h2 : 2 ≤ W <;> simp [h2]
+
+theorem go_blanks (W : Nat) (hW : 1 ≤ W) (b : Nat) (rest : List Row) (j : Nat) (g : List Row) (i0 : Nat) :
+    go rowKind j ⟨g, .blank, i0⟩ (List.replicate b (blankW W) ++ rest) =
+      go rowKind (j + b) ⟨g, .blank, i0⟩ rest := by
+  induction b generalizing j with
+  | zero => simp
+  | succ n ih =>
+    have hk := blankW_kind W hW
+    have h1 := (C03.blank_ends_block rowKind ⟨g, .blank, i0⟩ j (blankW W) _ hk).2 rfl
+    simp only [List.replicate_succ, List.cons_append, go, h1, List.nil_append]
+    rw [ih]
+    congr 1
+    omega
+
+/-- the stored rows of a sheet: table blocks separated by rows of empty cells; nothing after the last block -/
+def storedRows (naRep : Str) (W sep : Nat) : List TableVal → List Row
+  | [] => []
+  | [t] => (tableBlock naRep t).map (storeRow W)
+  | t :: t' :: rest =>
+    (tableBlock naRep t).map (storeRow W) ++ List.replicate (trailingBlank t + sep) (blankW W) ++
+      storedRows naRep W sep (t' :: rest)
+
+def blankPairs (W i : Nat) : List (Block Row × BlockVal) :=
+  if 2 ≤ W then [(⟨.blank, [blankW W], i⟩, .grid [blankW W])] else []
+
+/-- the blocks of a stored sheet with the values the handlers give them -/
+def sheetPairs (naRep : Str) (W sep : Nat) : Nat → List TableVal → List (Block Row × BlockVal)
+  | _, [] => []
+  | i, [t] => [(⟨.table, (tableBlock naRep t).map (storeRow W), i⟩, .table (expected t))]
+  | i, t :: t' :: rest =>
+    (⟨.table, (tableBlock naRep t).map (storeRow W), i⟩, .table (expected t)) ::
+      (blankPairs W (i + (tableBlock naRep t).length) ++
+        sheetPairs naRep W sep (i + (tableBlock naRep t).length + (trailingBlank t + sep)) (t' :: rest))
+
+theorem emit_keep (W j : Nat) : emit (⟨keepGrid W, .blank, j⟩ : St Row) = (blankPairs W j).map (·.1) := by
+  unfold keepGrid blankPairs emit
+  by_cases h : 2 ≤ W <;> simp [h]
+
+/-- **the splitter cuts a stored sheet back into exactly the written blocks** -/
+theorem go_storedRows (naRep : Str) (hna : naRepOK naRep = true) (W sep : Nat) (hW : 1 ≤ W) (hsep : 1 ≤ sep)
+    (tables : List TableVal) (hwf : ∀ t ∈ tables, excelWF t = true) (hne : tables ≠ []) (i : Nat) (s : St Row) :
+    go rowKind i s (storedRows naRep W sep tables) = emit s ++ (sheetPairs naRep W sep i tables).map (·.1) := by
+  induction tables generalizing i s with
+  | nil => exact absurd rfl hne
+  | cons t rest ih =>
+    obtain ⟨hd, plains, hB, hk, hp⟩ := block_kinds naRep hna t (hwf t (by simp)) W
+    have hlen : (tableBlock naRep t).length = 1 + plains.length := by
+      have := congrArg List.length hB
+      simp at this; omega
+    cases rest with
+    | nil =>
+      simp only [storedRows, sheetPairs, hB, List.map_cons, List.map_nil]
+      have := go_table hd plains [] hk hp i s
+      simp only [List.append_nil] at this
+      rw [this]
+      simp [go, emit]
+    | cons t' rest' =>
+      simp only [storedRows, sheetPairs, hB, List.map_cons, List.map_append]
+      rw [List.append_assoc, go_table hd plains _ hk hp i s]
+      obtain ⟨b, hb⟩ : ∃ b, trailingBlank t + sep = b + 1 := ⟨trailingBlank t + sep - 1, by omega⟩
+      rw [hb, List.replicate_succ, List.cons_append, go_first_blank W hW, go_blanks W hW]
+      rw [ih (fun x hx => hwf x (List.mem_cons_of_mem _ hx)) (by simp), emit_keep]
+      simp only [emit, List.singleton_append, List.cons_append, List.nil_append, hlen]
+      have e1 : i + 1 + plains.length = i + (1 + plains.length) := by omega
+      have e2 : i + (1 + plains.length) + 1 + b = i + (1 + plains.length) + (b + 1) := by omega
+      rw [e1, e2]
+
+
+/-! ## J. what `store` makes of the rows appended to a sheet -/
+
+theorem dropTrailingEmpty_replicate (n : Nat) : dropTrailingEmpty (List.replicate n ([] : Row)) = [] := by
+  induction n with
+  | zero => rfl
+  | succ k ih => simp [List.replicate_succ, dropTrailingEmpty, ih]
+
+theorem dropTrailingEmpty_append_ne (xs ys : List Row) (h : dropTrailingEmpty ys ≠ []) :
+    dropTrailingEmpty (xs ++ ys) = xs ++ dropTrailingEmpty ys := by
+  induction xs with
+  | nil => rfl
+  | cons x xs ih =>
+    simp only [List.cons_append, dropTrailingEmpty, ih]
+    cases hd : xs ++ dropTrailingEmpty ys with
+    | nil =>
+      simp only [List.append_eq_nil_iff] at hd
+      exact absurd hd.2 h
+    | cons z zs => rfl
+
+theorem dropTrailingEmpty_append_nil (xs ys : List Row) (h : dropTrailingEmpty ys = []) :
+    dropTrailingEmpty (xs ++ ys) = dropTrailingEmpty xs := by
+  induction xs with
+  | nil => simpa [dropTrailingEmpty] using h
+  | cons x xs ih => simp only [List.cons_append, dropTrailingEmpty, ih]
+
+theorem dropTrailingEmpty_full (B : List Row) (h : ∀ r ∈ B, r.isEmpty = false) : dropTrailingEmpty B = B := by
+  induction B with
+  | nil => rfl
+  | cons x xs ih =>
+    have hx := h x (by simp)
+    simp only [dropTrailingEmpty, ih (fun r hr => h r (List.mem_cons_of_mem _ hr))]
+    cases xs with
+    | nil => simp [hx]
+    | cons y ys => rfl
+
+theorem tableBlock_rows_nonempty (naRep : Str) (t : TableVal) : ∀ r ∈ tableBlock naRep t, r.isEmpty = false := by
+  intro r hr
+  unfold tableBlock at hr
+  cases hc : t.columns with
+  | nil =>
+    simp only [hc, List.isEmpty_nil, if_true, List.mem_cons, List.not_mem_nil, or_false] at hr
+    rcases hr with rfl | rfl <;> rfl
+  | cons c cs =>
+    simp only [hc, List.isEmpty_cons, Bool.false_eq_true, if_false, layoutTable] at hr
+    cases ht : t.transposed
+    · simp only [ht, Bool.false_eq_true, if_false, List.mem_cons, List.mem_map, List.mem_range] at hr
+      rcases hr with rfl | rfl | rfl | rfl | ⟨i, _, rfl⟩
+      · rfl
+      · rfl
+      · rfl
+      · rfl
+      · rfl
+    · simp only [ht, if_true, List.mem_cons, List.mem_map] at hr
+      rcases hr with rfl | rfl | ⟨c', _, rfl⟩ <;> rfl
+
+theorem tableBlock_ne_nil (naRep : Str) (t : TableVal) : tableBlock naRep t ≠ [] := by
+  unfold tableBlock layoutTable
+  split <;> simp
+
+/-- the appended rows without the rows after the last cell -/
+def rawRows (naRep : Str) (sep : Nat) : List TableVal → List Row
+  | [] => []
+  | [t] => tableBlock naRep t
+  | t :: t' :: rest =>
+    tableBlock naRep t ++ List.replicate (trailingBlank t + sep) [] ++ rawRows naRep sep (t' :: rest)
+
+theorem rawRows_ne_nil (naRep : Str) (sep : Nat) (t : TableVal) (rest : List TableVal) :
+    rawRows naRep sep (t :: rest) ≠ [] := by
+  cases rest with
+  | nil => exact tableBlock_ne_nil naRep t
+  | cons t' r => simp [rawRows, tableBlock_ne_nil]
+
+theorem layoutSheet_cons (naRep : Str) (sep : Nat) (t : TableVal) (rest : List TableVal) :
+    layoutSheet naRep sep (t :: rest) =
+      (tableBlock naRep t ++ List.replicate (trailingBlank t + sep) []) ++ layoutSheet naRep sep rest := by
+  simp [layoutSheet, sepRows, layoutTable_split, List.append_assoc, List.replicate_append_replicate]
+
+theorem dropTrailingEmpty_layoutSheet (naRep : Str) (sep : Nat) (tables : List TableVal) :
+    dropTrailingEmpty (layoutSheet naRep sep tables) = rawRows naRep sep tables := by
+  induction tables with
+  | nil => rfl
+  | cons t rest ih =>
+    rw [layoutSheet_cons]
+    cases rest with
+    | nil =>
+      simp only [layoutSheet, List.flatMap_nil, List.append_nil, rawRows]
+      rw [dropTrailingEmpty_append_nil _ _ (dropTrailingEmpty_replicate _),
+        dropTrailingEmpty_full _ (tableBlock_rows_nonempty naRep t)]
+    | cons t' r =>
+      rw [dropTrailingEmpty_append_ne _ _ (by rw [ih]; exact rawRows_ne_nil naRep sep t' r), ih]
+      simp [rawRows, List.append_assoc]
+
+theorem storeRow_nil (W : Nat) : storeRow W [] = blankW W := by simp [storeRow, padTo, blankW]
+
+theorem map_rawRows (naRep : Str) (W sep : Nat) (tables : List TableVal) :
+    (rawRows naRep sep tables).map (storeRow W) = storedRows naRep W sep tables := by
+  induction tables with
+  | nil => rfl
+  | cons t rest ih =>
+    cases rest with
+    | nil => rfl
+    | cons t' r =>
+      simp only [rawRows, storedRows, List.map_append, List.map_replicate, storeRow_nil]
+      rw [ih]
+
+/-- **the openpyxl law applied to a written sheet**: the blocks, padded to the sheet width, separated by rows of
+    empty cells, nothing after the last block -/
+theorem store_layoutSheet (naRep : Str) (sep : Nat) (tables : List TableVal) :
+    store (layoutSheet naRep sep tables) =
+      storedRows naRep (width (layoutSheet naRep sep tables)) sep tables := by
+  unfold store
+  rw [dropTrailingEmpty_layoutSheet, map_rawRows]
+
+theorem le_foldl_max (rows : List Row) (a : Nat) :
+    a ≤ rows.foldl (fun m r => max m r.length) a ∧ ∀ r ∈ rows, r.length ≤ rows.foldl (fun m r => max m r.length) a := by
+  induction rows generalizing a with
+  | nil => simp
+  | cons x xs ih =>
+    have := ih (max a x.length)
+    simp only [List.foldl_cons, List.mem_cons]
+    refine ⟨by omega, ?_⟩
+    rintro r (rfl | hr)
+    · omega
+    · exact this.2 r hr
+
+theorem le_width (rows : List Row) (r : Row) (h : r ∈ rows) : r.length ≤ width rows := (le_foldl_max rows 0).2 r h
+
+theorem width_pos (naRep : Str) (sep : Nat) (t : TableVal) (rest : List TableVal) :
+    1 ≤ width (layoutSheet naRep sep (t :: rest)) := by
+  have : [Cell.str (header t)] ∈ layoutSheet naRep sep (t :: rest) := by
+    simp [layoutSheet, layoutTable]
+  simpa using le_width _ _ this
+
+/-! ## K. the handlers on the blocks of a sheet -/
+
+theorem runBlocks_pairs (cfg : Config) (hfilter : cfg.filter = none) (ps : List (Block Row × BlockVal))
+    (h : ∀ p ∈ ps, ∀ f : Fixer, handle cfg p.1.ty p.1.rows f.reset = .ok (p.2, f.reset)) (f : Fixer) :
+    (runBlocks cfg (ps.map (·.1)) f).blocks = ps.map (fun p => ⟨p.1.ty, p.1.first, p.2⟩) ∧
+    (runBlocks cfg (ps.map (·.1)) f).issues = [] ∧
+    (runBlocks cfg (ps.map (·.1)) f).ending = Ending.exhausted := by
+  induction ps generalizing f with
+  | nil => simp [runBlocks]
+  | cons p ps ih =>
+    have hp := h p (by simp) f
+    have := ih (fun q hq => h q (List.mem_cons_of_mem _ hq)) f.reset
+    simp only [List.map_cons, runBlocks, accepts, hfilter, Bool.not_true, Bool.false_eq_true, if_false, hp]
+    exact ⟨by rw [this.1], this.2.1, this.2.2⟩
+
+theorem sheetPairs_handle (ext : Ext) (tracker : Tracker) (naRep : Str) (hna : naRepOK naRep = true) (W sep : Nat)
+    (tables : List TableVal) (hwf : ∀ t ∈ tables, excelWF t = true) (i : Nat) :
+    ∀ p ∈ sheetPairs naRep W sep i tables, ∀ f : Fixer,
+      handle ⟨.pdtable, none, tracker, ext⟩ p.1.ty p.1.rows f.reset = .ok (p.2, f.reset) := by
+  induction tables generalizing i with
+  | nil => intro p hp; simp [sheetPairs] at hp
+  | cons t rest ih =>
+    have ht : ∀ f : Fixer, handle ⟨.pdtable, none, tracker, ext⟩ .table ((tableBlock naRep t).map (storeRow W)) f.reset =
+        .ok (.table (expected t), f.reset) := by
+      intro f
+      have := makeTable_block ext naRep hna t (hwf t (by simp)) W f.reset ⟨rfl, rfl⟩
+      simp [handle, this, bind, Except.bind, pure, Except.pure]
+    cases rest with
+    | nil =>
+      intro p hp f
+      simp only [sheetPairs, List.mem_singleton] at hp
+      subst hp
+      exact ht f
+    | cons t' r =>
+      intro p hp f
+      simp only [sheetPairs, List.mem_cons, List.mem_append] at hp
+      rcases hp with rfl | hp | hp
+      · exact ht f
+      · unfold blankPairs at hp
+        by_cases h2 : 2 ≤ W
+        · simp only [h2, if_true, List.mem_singleton] at hp
+          subst hp; rfl
+        · simp [h2] at hp
+      · exact ih (fun x hx => hwf x (List.mem_cons_of_mem _ hx)) _ p hp f
+
+/-- the tables among the blocks of a sheet are the written tables, in order -/
+theorem sheetPairs_tables (naRep : Str) (W sep : Nat) (tables : List TableVal) (i : Nat) :
+    (sheetPairs naRep W sep i tables).filterMap (fun p => match p.2 with | .table q => some q | _ => none) =
+      tables.map expected := by
+  induction tables generalizing i with
+  | nil => rfl
+  | cons t rest ih =>
+    cases rest with
+    | nil => simp [sheetPairs]
+    | cons t' r =>
+      have hb : (blankPairs W (i + (tableBlock naRep t).length)).filterMap
+          (fun p => match p.2 with | .table q => some q | _ => none) = [] := by
+        unfold blankPairs; split <;> simp
+      simp only [sheetPairs, List.filterMap_cons, List.filterMap_append, hb, List.nil_append, ih, List.map_cons]
+
+/-- **one sheet**: reading the stored rows of a sheet written from well-formed tables delivers every block without
+    an issue, and the tables among them are the written ones in order -/
+theorem parseBlocks_sheet (ext : Ext) (tracker : Tracker) (naRep : Str) (hna : naRepOK naRep = true) (sep : Nat)
+    (hsep : 1 ≤ sep) (tables : List TableVal) (hwf : ∀ t ∈ tables, excelWF t = true) (f : Fixer) :
+    let r := parseBlocks ⟨.pdtable, none, tracker, ext⟩ (store (layoutSheet naRep sep tables)) f
+    r.blocks = (sheetPairs naRep (width (layoutSheet naRep sep tables)) sep 0 tables).map
+        (fun p => ⟨p.1.ty, p.1.first, p.2⟩) ∧
+    r.issues = [] ∧ r.ending = Ending.exhausted := by
+  intro r
+  show (parseBlocks _ _ f).blocks = _ ∧ (parseBlocks _ _ f).issues = [] ∧ (parseBlocks _ _ f).ending = _
+  unfold parseBlocks segment run
+  rw [store_layoutSheet]
+  cases tables with
+  | nil => simp [storedRows, sheetPairs, go, emit, initSt, runBlocks]
+  | cons t rest =>
+    rw [go_storedRows naRep hna _ sep (width_pos naRep sep t rest) hsep _ hwf (by simp) 0 initSt]
+    have : emit (initSt : St Row) = [] := rfl
+    rw [this, List.nil_append]
+    exact runBlocks_pairs _ rfl _ (sheetPairs_handle ext tracker naRep hna _ sep _ hwf 0) f
+
+/-! ## L. the style index arithmetic -/
+
+theorem tableRows_length (N W i : Nat) (d : Dim) :
+    (tableRows N W i d).length = min (i + d.trueRows + 2) N - i := by
+  simp [tableRows]
+
+theorem tableRows_row_length (N W i : Nat) (d : Dim) : ∀ r ∈ tableRows N W i d, r.length = min d.trueCols W := by
+  intro r hr
+  simp only [tableRows, List.mem_map] at hr
+  obtain ⟨_, _, rfl⟩ := hr
+  simp
+
+/-- every coordinate of the slice lies in the table's rows, inside the sheet -/
+theorem tableRows_bounds (N W i : Nat) (d : Dim) : ∀ r ∈ tableRows N W i d, ∀ x ∈ r,
+    i ≤ x.1 ∧ x.1 < i + d.trueRows + 2 ∧ x.1 < N ∧ x.2 < W ∧ x.2 < d.trueCols := by
+  intro r hr x hx
+  simp only [tableRows, List.mem_map, List.mem_range'_1] at hr
+  obtain ⟨row, ⟨h1, h2⟩, rfl⟩ := hr
+  simp only [List.mem_map, List.mem_range] at hx
+  obtain ⟨c, hc, rfl⟩ := hx
+  simp only
+  omega
+
+/-- the cells of a table lie in the rows `[i, i + trueRows + 2)` of the sheet and inside its width -/
+def InRect (N W i k : Nat) (d : Dim) (x : Target) : Prop :=
+  x.table = k ∧ i ≤ x.row ∧ x.row < i + d.trueRows + 2 ∧ x.row < N ∧ x.col < W ∧ x.col < d.trueCols
+
+theorem tag_mem (k : Nat) (p : Part) (xs : List (Nat × Nat)) (x : Target) (h : x ∈ tag k p xs) :
+    x.table = k ∧ (x.row, x.col) ∈ xs := by
+  simp only [tag, List.mem_map] at h
+  obtain ⟨y, hy, rfl⟩ := h
+  exact ⟨rfl, hy⟩
+
+theorem mem_getD_nil {α : Type} (l : List (List α)) (n : Nat) (y : α) (h : y ∈ l.getD n []) : ∃ r ∈ l, y ∈ r := by
+  rw [List.getD_eq_getElem?_getD] at h
+  cases hg : l[n]? with
+  | none => simp [hg] at h
+  | some r => simp [hg] at h; exact ⟨r, List.mem_of_getElem? hg, h⟩
+
+/-- **one table**: with the two header rows inside the sheet (and two columns under a transposed table that has
+    lines) the styling of the table raises nothing and touches only cells of the table's own rows -/
+theorem styleTable_ok (N W i k : Nat) (d : Dim) (h2 : i + 2 ≤ N)
+    (hW : d.transposed = true → i + 2 < N → 1 ≤ d.numCols → 2 ≤ W) :
+    ∃ ts, styleTable N W i k d = .ok ts ∧ ∀ x ∈ ts, InRect N W i k d x := by
+  have hlen := tableRows_length N W i d
+  have hb := tableRows_bounds N W i d
+  have hrl := tableRows_row_length N W i d
+  unfold styleTable
+  cases hT : tableRows N W i d with
+  | nil => rw [hT] at hlen; simp at hlen; omega
+  | cons r0 tl =>
+    cases tl with
+    | nil => rw [hT] at hlen; simp at hlen; omega
+    | cons r1 rest =>
+      rw [hT] at hb hrl hlen
+      have hsub : ∀ r ∈ rest, ∀ x ∈ r, i ≤ x.1 ∧ x.1 < i + d.trueRows + 2 ∧ x.1 < N ∧ x.2 < W ∧ x.2 < d.trueCols :=
+        fun r hr => hb r (List.mem_cons_of_mem _ (List.mem_cons_of_mem _ hr))
+      have hin : ∀ (p : Part) (xs : List (Nat × Nat)),
+          (∀ y ∈ xs, i ≤ y.1 ∧ y.1 < i + d.trueRows + 2 ∧ y.1 < N ∧ y.2 < W ∧ y.2 < d.trueCols) →
+          ∀ x ∈ tag k p xs, InRect N W i k d x := by
+        intro p xs hxs x hx
+        obtain ⟨e, hm⟩ := tag_mem k p xs x hx
+        exact ⟨e, hxs _ hm⟩
+      have h0 := hin .tableName r0 (hb r0 (by simp))
+      have h1 := hin .destinations r1 (hb r1 (by simp))
+      cases hd : d.transposed
+      · -- row-wise
+        simp only [Bool.false_eq_true, if_false]
+        refine ⟨_, rfl, ?_⟩
+        intro x hx
+        simp only [List.mem_append] at hx
+        rcases hx with (((hx | hx) | hx) | hx) | hx
+        · exact h0 x hx
+        · exact h1 x hx
+        · refine hin .columnNames _ ?_ x hx
+          intro y hy
+          obtain ⟨r, hr, hyr⟩ := mem_getD_nil rest 0 y hy
+          exact hsub r hr y hyr
+        · refine hin .units _ ?_ x hx
+          intro y hy
+          obtain ⟨r, hr, hyr⟩ := mem_getD_nil rest 1 y hy
+          exact hsub r hr y hyr
+        · refine hin .values _ ?_ x hx
+          intro y hy
+          simp only [List.mem_flatten] at hy
+          obtain ⟨r, hr, hyr⟩ := hy
+          exact hsub r (List.mem_of_mem_drop hr) y hyr
+      · -- transposed
+        have hany : rest.any (fun t => decide (t.length < 2)) = false := by
+          rw [List.any_eq_false]
+          intro r hr
+          have hl := hrl r (List.mem_cons_of_mem _ (List.mem_cons_of_mem _ hr))
+          have hne : rest ≠ [] := List.ne_nil_of_mem hr
+          have h3 : 3 ≤ min (i + d.trueRows + 2) N - i := by
+            cases rest with
+            | nil => exact absurd rfl hne
+            | cons a b => simp at hlen; omega
+          have hcols : 1 ≤ d.numCols := by
+            simp only [Dim.trueRows, hd, if_true] at h3; omega
+          have := hW hd (by omega) hcols
+          simp only [Dim.trueCols, hd, if_true] at hl
+          simp only [decide_eq_true_eq]
+          omega
+        simp only [if_true, hany, Bool.false_eq_true, if_false]
+        refine ⟨_, rfl, ?_⟩
+        have hflat : ∀ (g : List (Nat × Nat) → List (Nat × Nat)), (∀ t, ∀ y ∈ g t, y ∈ t) →
+            ∀ y ∈ rest.flatMap g, i ≤ y.1 ∧ y.1 < i + d.trueRows + 2 ∧ y.1 < N ∧ y.2 < W ∧ y.2 < d.trueCols := by
+          intro g hg y hy
+          simp only [List.mem_flatMap] at hy
+          obtain ⟨r, hr, hyr⟩ := hy
+          exact hsub r hr y (hg r y hyr)
+        have gn := hflat (fun t => t.take 1) (fun t y hy => List.mem_of_mem_take hy)
+        have gu := hflat (fun t => (t.drop 1).take 1) (fun t y hy => List.mem_of_mem_drop (List.mem_of_mem_take hy))
+        have gv := hflat (fun t => t.drop 2) (fun t y hy => List.mem_of_mem_drop hy)
+        intro x hx
+        simp only [List.mem_append] at hx
+        rcases hx with (((((hx | hx) | hx) | hx) | hx) | hx) | hx
+        · exact h0 x hx
+        · exact h1 x hx
+        · exact hin .columnNames _ gn x hx
+        · exact hin .units _ gu x hx
+        · exact hin .values _ gv x hx
+        · exact hin .centeredUnits _ gu x hx
+        · exact hin .centeredValues _ gv x hx
+
+/-- where the loop of `_style_tables_in_worksheet` expects the tables: `i` is the sheet row of the first header -/
+def Fits (N W sep : Nat) : Nat → List Dim → Prop
+  | _, [] => True
+  | i, d :: ds =>
+    (i + 2 ≤ N ∧ (d.transposed = true → i + 2 < N → 1 ≤ d.numCols → 2 ≤ W)) ∧
+      Fits N W sep (i + d.trueRows + 2 + sep) ds
+
+/-- a target lies in the rows of the table it is tagged with -/
+def InOwn (N W sep : Nat) : Nat → Nat → List Dim → Target → Prop
+  | _, _, [], _ => False
+  | i, k, d :: ds, x => InRect N W i k d x ∨ InOwn N W sep (i + d.trueRows + 2 + sep) (k + 1) ds x
+
+theorem styleTargets_ok (N W sep : Nat) (dims : List Dim) (i k : Nat) (h : Fits N W sep i dims) :
+    ∃ ts, styleTargets N W sep i k dims = .ok ts ∧ ∀ x ∈ ts, InOwn N W sep i k dims x := by
+  induction dims generalizing i k with
+  | nil => exact ⟨[], rfl, by simp⟩
+  | cons d ds ih =>
+    obtain ⟨⟨h2, hW⟩, hrest⟩ := h
+    obtain ⟨a, ha, hax⟩ := styleTable_ok N W i k d h2 hW
+    obtain ⟨b, hb, hbx⟩ := ih (i + d.trueRows + 2 + sep) (k + 1) hrest
+    refine ⟨a ++ b, by simp [styleTargets, ha, hb, bind, Except.bind, pure, Except.pure], ?_⟩
+    intro x hx
+    rcases List.mem_append.1 hx with hx | hx
+    · exact Or.inl (hax x hx)
+    · exact Or.inr (hbx x hx)
+
+theorem layoutTable_length (naRep : Str) (t : TableVal) : (layoutTable naRep t).length = (dimOf t).trueRows + 2 := by
+  unfold layoutTable dimOf Dim.trueRows
+  cases t.transposed <;> simp <;> omega
+
+theorem tableBlock_length_ge (naRep : Str) (t : TableVal) : 2 ≤ (tableBlock naRep t).length := by
+  unfold tableBlock layoutTable
+  split
+  · simp
+  · split <;> simp
+
+theorem rawRows_length_cons (naRep : Str) (sep : Nat) (t t' : TableVal) (r : List TableVal) :
+    (rawRows naRep sep (t :: t' :: r)).length =
+      (layoutTable naRep t).length + sep + (rawRows naRep sep (t' :: r)).length := by
+  simp only [rawRows, List.length_append, List.length_replicate, layoutTable_split]
+  omega
+
+/-- the tables as written satisfy the expectations of the style loop, for every table shape -/
+theorem fits_layout (naRep : Str) (sep : Nat) (tables : List TableVal) (N W i : Nat)
+    (hN : i + (rawRows naRep sep tables).length ≤ N)
+    (hW : ∀ t ∈ tables, ∀ r ∈ layoutTable naRep t, r.length ≤ W) :
+    Fits N W sep i (tables.map dimOf) := by
+  induction tables generalizing i with
+  | nil => trivial
+  | cons t rest ih =>
+    have hblock := tableBlock_length_ge naRep t
+    have hfirst : i + 2 ≤ N := by
+      cases rest with
+      | nil => simp only [rawRows] at hN; omega
+      | cons t' r => simp only [rawRows, List.length_append] at hN; omega
+    refine ⟨⟨hfirst, ?_⟩, ?_⟩
+    · intro htr _ hcols
+      simp only [dimOf] at htr hcols
+      cases hc : t.columns with
+      | nil => rw [hc] at hcols; simp at hcols
+      | cons c cs =>
+        have hmem : (Cell.str c.name :: Cell.str c.unit :: reprCol naRep c.unit 0 c.values) ∈ layoutTable naRep t := by
+          simp [layoutTable, htr, hc]
+        have := hW t (by simp) _ hmem
+        simp at this; omega
+    · cases rest with
+      | nil => trivial
+      | cons t' r =>
+        apply ih
+        · rw [rawRows_length_cons, layoutTable_length] at hN; omega
+        · exact fun x hx => hW x (List.mem_cons_of_mem _ hx)
 
 end Pdt.Grid
